@@ -443,3 +443,9 @@ def run(ctx):
                       how="np.clip(<sample>, d.low, d.high)", where=where(sf, n))
     ctx.floor("R10.8", "numerical_sample_stores", n_num, 2)
 
+    # ------------------------------------------------------------ R10.9 the cache a repeated suggest answers from cannot be edited from outside
+    ctx.rule("R10.9", "the value a repeated suggest_* returns is the one stored: Trial's public properties hand out deep copies of the private cache, "
+             "so editing trial.params / trial.distributions cannot change what the next suggest of that name returns")
+    from rules.c20 import trial_properties_return_copies
+    trial_properties_return_copies(ctx, "R10.9")
+
